@@ -387,9 +387,25 @@ func (g *FnGen) run() {
 
 func (g *FnGen) emitAxioms() {
 	for _, pc := range g.prog.sortedContracts() {
+		// axioms are scoped to the contract file of the function's own package; `axiom NAME for F1 F2: ...`
+		// restricts an axiom to the listed functions (keeps unrelated VCs free of heavy quantified facts)
+		if g.pc != nil && pc != g.pc {
+			continue
+		}
 		for _, ax := range pc.Axioms {
 			if ax.Mode != "" && ax.Mode != g.mode {
 				continue
+			}
+			if len(ax.For) > 0 {
+				hit := false
+				for _, f := range ax.For {
+					if g.fc != nil && f == g.fc.Name {
+						hit = true
+					}
+				}
+				if !hit {
+					continue
+				}
 			}
 			env := &Env{g: g, vars: map[string]Val{}, cur: g.cur, old: g.cur, pkg: g.prog.typesPkg(pc.PkgPath), pcs: []*PkgContracts{pc}}
 			ok := func() (ok bool) {
